@@ -3,7 +3,7 @@
 //
 //	eopen      the data sink cannot be opened (before the first sample)
 //	eenc       Encode fails at the k-th sample (mid-run)
-//	eflush     Flush fails (the periodic flush when gate = 1: flush-interval 1 ms, in any case the final one, after the
+//	eflush     Flush fails (the periodic flush when gate = 1: flush-interval 20 us, in any case the final one, after the
 //	           aggregator was told to stop: at the very end of the run)
 //	eclose     the data sink's Close fails (at the very end)
 //	eencclose  Encode fails at the k-th sample AND the sink's Close fails afterwards (two errors to report)
@@ -110,7 +110,7 @@ func realAggregator(pm *poolMocks, pl poolPlan) core.Aggregator {
 	}
 	conf := aggregator.EncoderAggregatorConfig{Sink: sink, ReporterConfig: aggregator.ReporterConfig{SampleQueueSize: 4096}}
 	if pl.gate {
-		conf.FlushInterval = time.Millisecond
+		conf.FlushInterval = 20 * time.Microsecond
 	}
 	inner := aggregator.NewEncoderAggregator(func(io.Writer, func()) aggregator.SampleEncoder { return enc }, conf)
 	return reportingAggregator{Aggregator: inner, pm: pm}
